@@ -10,25 +10,25 @@ CHECKS = {
          'Every string of the enumerated neighbourhoods and languages gets the verdict of the reference grammar from each parser, with the nil/non-nil conventions and without panic. Exhaustive within the stated edit bounds; thorough enumerates the whole v2 language, all 2^22 v3 metric sets and all 2^21 v4 optional subsets.',
          'Trusted: reference grammar mc/spec/grammar.go (two formulations cross-checked on every string). Strings further than the edit bound from every seed are not explored.', '5 C01, 4 E1'),
  'C02': ('objspace', 'explicit-state enumeration of object states (full products of free metrics) on the implementation, reference serialiser as oracle',
-         'Every object state of the swept sub-spaces (v2: all 139,968,000 in thorough; v3/v4: all t-wise subsets, storage-order windows and presence subsets over 3 backgrounds) is built through the real Set, serialised and re-parsed; result must be == and Get-equal. Exhaustive for v2, bounded-exhaustive for v3/v4.',
+         'Every object state of the swept sub-spaces (v2: all 139,968,000 in thorough; v3/v4: all t-wise subsets, storage-order windows and presence subsets over 3 backgrounds) is built through the real Set, serialised and re-parsed; result must be == and Get-equal, independent of an earlier parse result that was edited, and the returned string must still read the same one state later. Exhaustive for v2, bounded-exhaustive for v3/v4.',
          'Trusted: reference tables/serialiser in mc/spec; reachability of only canonical states relies on the closure check of C07.', '5 C02, 4 E2'),
  'C03': ('scorespace', 'exhaustive enumeration of all 2 x 16,588,800 effective classes against an exact rational/integer model',
-         'BaseScore, TemporalScore, EnvironmentalScore (and Impact/Exploitability) of every effective class of v3.0 and v3.1 equal the exact evaluation of the specification equations. Complete for effective classes; lifted to all representations by C10.',
+         'BaseScore, TemporalScore, EnvironmentalScore (and Impact/Exploitability) of every effective class of v3.0 and v3.1 equal the exact evaluation of the specification equations. Complete for effective classes in canonical representation, plus one alternative representation per overridable metric and the all-overridden pattern, plus a cold start (distinguished objects scored first in the process); deeper representation bounds in C10.',
          'Trusted: weights/equations transcribed into mc/spec/score3.go; big.Rat arithmetic.', '5 C03, 4 E3'),
  'C04': ('scorespace', 'exhaustive enumeration of all 15,116,544 effective classes against an exact integer model',
-         'Score() of every effective class (all 270 MacroVectors) equals the exact-integer evaluation of the specification algorithm with derived maxima/depths. Complete for effective classes; lifted to all representations by C10.',
+         'Score() of every effective class (all 270 MacroVectors) equals the exact-integer evaluation of the specification algorithm with derived maxima/depths. Complete for effective classes in canonical representation, plus all-overridden/supplemental representations and single deviations on a sub-lattice (all classes in thorough), plus a cold start; deeper representation bounds in C10.',
          'Trusted: frozen MacroVector table (independent transcription), EQ predicates transcribed from the specification.', '5 C04, 4 E3'),
  'C05': ('scorespace', 'complete enumeration of all 139,968,000 v2.0 assignments against an exact rational model with tie sets',
          'All three scores and both sub-scores of every v2.0 metric assignment conform to the guide equations (both neighbours allowed at exact half-way points, propagated through the cascaded roundings). Complete.',
          'Trusted: weights/equations transcribed into mc/spec/score2.go.', '5 C05, 4 E3'),
  'C06': ('strspace', 'bounded-exhaustive enumeration of accepted strings; Get compared with the reference parser',
-         'For every accepted string of the E1 spaces (whole v2 language in thorough) every Get equals what the reference parser extracted.',
+         'For every accepted string of the E1 spaces (whole v2 language in thorough) every Get equals what the reference parser extracted, also after an earlier result of the same string was edited (no aliasing); plus a volume phase parsing the canonical strings of 185 M objects in one process against the objects built by Set.',
          'Trusted: reference parser; v3 orders / v4 value combinations outside the enumerated families are not explored.', '5 C06, 4 E1'),
  'C07': ('objspace', 'explicit-state reachability closure: every (state, Set) transition compared with the canonical successor',
          'For every state of the sweeps and every Set transition (legal values, illegal values, unknown abbreviations) the successor is == the canonical object of the model successor; failed Set changes nothing; plus BFS over Set histories from the zero value and parsed objects.',
          'Trusted: array model of Set/Get in mc/spec; v3/v4 bounded to t-wise + windows + presence subsets.', '5 C07, 4 E2'),
  'C08': ('strspace', 'bounded-exhaustive enumeration of accepted strings; Vector() compared with the reference canonical serialiser',
-         'For every accepted string of the E1 spaces ParseVector(s).Vector() is the reference canonical spelling and parse-then-serialise is idempotent.',
+         'For every accepted string of the E1 spaces ParseVector(s).Vector() is the reference canonical spelling, parse-then-serialise is idempotent, the returned string does not change when other objects are serialised afterwards, and the result does not depend on which one-metric neighbour was serialised just before.',
          'Trusted: reference canonical serialiser.', '5 C08, 4 E1'),
  'C09': ('objspace', 'exhaustive enumeration of an abbreviation x value alphabet on several states + state invariants on all swept states',
          'Get/Set accept exactly table members over an alphabet of ~thousands of abbreviations x values (all edit-distance-1 strings); every swept state is well formed (legal Get, canonical Vector, scoring without panic).',
@@ -45,9 +45,9 @@ CHECKS = {
  'C13': ('strspace', 'bounded-exhaustive enumeration of strings against all four parsers + Vector() of swept objects against the other parsers',
          'No string of the E1 spaces (incl. the header matrix) is accepted by two parsers; Vector() of every swept object is rejected by the three other parsers.',
          'A doubly accepted string would have to lie inside the explored neighbourhoods.', '5 C13, 4 E1'),
- 'C14': ('sched', 'stateless exploration of all schedules and pool answers under a controlled scheduler (sync redirected to a shim by build overlay), DFS with replay; all call histories to a depth; -race side pass',
-         'Every interleaving at sync.Pool operations and every pool answer of 2-3 thread harnesses (complete or preemption-bounded as stated) and every call history up to depth 3/4 gives each call the result it has in isolation; returned strings never change; shared objects unchanged. Unsynchronised sharing is looked for by a free-running -race pass (a detector, not an enumeration).',
-         'Trusted: the shim models sync.Pool as a bag with arbitrary drops; scheduling points only at sync operations; sequential consistency.', '5 C14, 4 E4'),
+ 'C14': ('sched', 'stateless exploration of all schedules and pool answers under a controlled scheduler (sync and sync/atomic redirected to shims by build overlay, loop-level points inserted by AST rewriting), DFS with replay, preemption bounding; all call histories to a depth; cold/warm differential; -race side pass',
+         'Every interleaving at sync / sync.atomic operations (plus, in the fine-grained phases, at every loop head of the instrumented files) and every pool answer of 2-3 thread harnesses (complete or preemption-bounded as stated), every call history up to depth 3/4, and a cold-vs-warm differential in a fresh process give each call the result it has in isolation; returned strings and error values never change; shared objects unchanged; no deadlock. Unsynchronised sharing is looked for by a free-running -race pass (a detector, not an enumeration).',
+         'Trusted: the shims model sync.Pool as a bag with arbitrary drops and Mutex/RWMutex/Once as flags with parked waiters; sequentially consistent interleavings; package-level state that is neither sync nor sync/atomic is not reset between executions (divergent replays are reported and not judged).', '5 C14, 4 E4'),
  'C15': ('numspace', 'exhaustive enumeration of all 2^32 float32 values + ulp neighbourhoods of every threshold, three packages',
          'Rating equals the interval table on every float32 value, every float64 within 4096 ulps of a threshold, grids and specials, identically in the three packages.',
          'float64 values neither float32-representable nor near a threshold are covered by grids only.', '5 C15, 4 E5'),
